@@ -1,6 +1,6 @@
 # C18 — type-erased senders and functions behave like what they wrap (structural part; DESIGN.md §5 C18)
 import re
-from engine.core import AnalysisBroken, P, T, callee_of, callee_short, cond_atoms, loc_of, strip, block_path
+from engine.core import is_moved, AnalysisBroken, P, T, callee_of, callee_short, cond_atoms, loc_of, strip, block_path
 from engine.kinds import FactFlow, CountFlow, precedes_on_all_paths, always_followed_by, eval_walk
 from .common import facts, lib, driver, witness
 
@@ -16,7 +16,7 @@ EXPLANATION = (
     "unique_any_sender does not convert to any_sender (R4). Not decided: observational equivalence of wrapped and "
     "unwrapped executions.")
 ASSUMPTIONS = ["the default configuration (PIKA_DETAIL_ENABLE_ANY_SENDER_SBO off) stores every sender on the heap; the embedded-storage configuration is analysed in the thorough tier"]
-FLOORS = {"C18.R1": 10, "C18.R2": 4, "C18.R3": 4, "C18.R4": 7, "C18.R5": 1, "C18.R6": 6}
+FLOORS = {"C18.R1": 10, "C18.R2": 4, "C18.R3": 4, "C18.R4": 7, "C18.R5": 1, "C18.R6": 6, "C18.R7": 2}
 
 MS = "pika::detail::movable_sbo_storage"
 CS = "pika::detail::copyable_sbo_storage"
@@ -186,6 +186,9 @@ def run(rep, tier):
         raise AnalysisBroken("C18.R5: no forwarding call examined")
 
     # ---- R6: every forwarding layer of the erasure forwards, exactly once, through its own channel
+    rep.rule("C18.R7", "K9 (value category is preserved through the forwarding members): reset(Sender&&) of any_sender / unique_any_sender is a forwarding function; in the "
+             "instantiations where the argument is an lvalue (Sender = any_sender&, any_sender const&) the wrapper is *copied* - the assignment / store it reaches takes "
+             "the argument as an lvalue - and the caller's wrapper keeps its sender ('copies of a copyable wrapper are independent'); only the rvalue instantiations move")
     rep.rule("C18.R6", "K3: the type-erased layers change nothing observable: any_receiver::set_error / set_stopped and any_receiver_ref::set_value / set_error / set_stopped call the "
              "same member of what they wrap exactly once on every path; any_operation_state_holder_impl::start, any_operation_state_holder::start and any_operation_state::start "
              "start the operation they hold exactly once - a layer that drops the call leaves the wrapped pipeline without a completion / never started")
@@ -377,3 +380,39 @@ def run(rep, tier):
     n, failed = witness(rep, "C18.R4", driver("../witness/C18.cpp"))
     for _ in range(n - failed):
         rep.ok("C18.R4", "witness:C18.cpp", "static_assert holds")
+
+    # ---- R7: reset(lvalue) copies
+    RS7 = facts(rep, driver("c18_erasure.cpp"), [r"^pika::execution::experimental::(unique_)?any_sender::reset$"])
+    n7 = 0
+    for fn in RS7.fns:
+        if fn.pattern or fn.parent != -1 or not fn.params:
+            continue
+        ptype = fn.params[0].get("type") or ""
+        if "&&" in ptype or not ptype.rstrip().endswith("&"):
+            continue            # rvalue instantiation: may move
+        for b, i, e in fn.all_events():
+            if e.get("k") != "call":
+                continue
+            uses = [a for a in (e.get("args") or []) if P(strip(a)) == fn.params[0]["name"] or T(a).endswith(fn.params[0]["name"])]
+            if not uses:
+                continue
+            n7 += 1
+            def really_moved(a):
+                # std::move / a cast to an rvalue reference; std::forward<Sender> of an lvalue instantiation yields an lvalue
+                while isinstance(a, dict):
+                    if a.get("k") == "move":
+                        return a.get("which") in ("move", "cast")
+                    if a.get("k") == "cast":
+                        a = a.get("e")
+                        continue
+                    return False
+                return False
+            pts = [str(t) for t in (e.get("ptypes") or [])]
+            moved = any(really_moved(a) for a in uses) or (len(pts) == 1 and pts[0].endswith("&&") and callee_short(e) == "operator=")
+            if moved:
+                rep.bad("C18.R7", fn, loc_of(e), "reset-moves-lvalue", "%s, instantiated for an lvalue argument (%s), hands it on as an rvalue (%s): dst.reset(src) with a named any_sender "
+                        "leaves src empty (connect throws bad_function_call) instead of making an independent copy" % (fn.qname.rsplit("::", 2)[-2] + "::reset", ptype, T(e)[:60]))
+            else:
+                rep.ok("C18.R7", fn, "reset(%s) passes its argument on as an lvalue (copy)" % ptype)
+    if n7 < 2:
+        raise AnalysisBroken("C18.R7: reset() is not instantiated for lvalue arguments (%d uses)" % n7)
